@@ -1,5 +1,6 @@
 #!/usr/bin/env python3
 import ast
+import io
 import os
 from collections import defaultdict
 from typing import Dict, Tuple, Union
@@ -136,7 +137,9 @@ MappingType = Dict[str, Dict[str, Tuple[str, str]]]
 
 
 def rewrite_imports(source_code: str, mapping: MappingType) -> Union[str, None]:
-    lines = source_code.splitlines(keepends=True)
+    # split on "\n", "\r" and "\r\n" only, like the parser does when it numbers lines
+    # (str.splitlines also breaks on form feeds and Unicode separators inside literals)
+    lines = io.StringIO(source_code, newline="").readlines()
     tree = ast.parse(source_code)
     replacements = []
 
